@@ -272,12 +272,17 @@ EXTRA_TEXT = {
     'C19': " (SIB1, SIB2) SphericalEngine::Value and SphericalEngine::Circle, which share almost all of their assignments, "
            "do not differ by the signature of a slip and order their dependent statements alike. (X7 conversions) no time or "
            "other floating value that may be NaN or infinite is converted to an integer in the magnetic/gravity classes "
-           "(found and fixed: MagneticModel converted floor(t / dt0) before clamping).",
+           "(found and fixed: MagneticModel converted floor(t / dt0) before clamping). (DZ1) no division by a member that an "
+           "accepted argument makes zero (found after a seeding agent's report and fixed: NormalGravity::Jn divided by _e2 "
+           "for the sphere).",
     'C13': " (X7 conversions, library-wide) in every library function no floating value that may be NaN or infinite where it is "
            "converted is converted to an integer (43 conversions examined by the interval analysis with NaN/infinity flags); "
            "this found and fixed seven undefined conversions (Geoid::height, Geoid::CacheArea, MagneticModel, DMS::Encode, "
            "MGRS::LatitudeBand via StandardZone and MGRS::Forward, Intersect::All). X4 judges a private member by the "
-           "arguments its call sites can pass.",
+           "arguments its call sites can pass. (IDX1) a fixed-size local array is not indexed by a counter that grows around "
+           "the enclosing loop and is compared with no constant there (99 indexes, 97 proved by intervals; found after a "
+           "seeding agent's report and fixed: DMS::Decode(\"1:2:3:4:5\") wrote past ipieces[3]). (DZ1) no division by a member "
+           "that an accepted argument makes zero without a test on the path.",
     'C20': " (X7 conversions) no floating value that may be NaN or infinite is converted to an integer in Geoid "
            "(found and fixed: height(lat, inf) and CacheArea with a latitude outside [-90, 90]).",
     'C04': " (OFFS) Symbolic evaluation of UTMUPS::Forward/Reverse: the false easting/northing entries added after projecting are "
@@ -291,7 +296,7 @@ EXTRA_TEXT = {
            "symbolically evaluated body) at the 7 sites of the conic projections where that is elementary. (H2) Scale homogeneity of the outputs of PolarStereographic and LambertConformalConic Forward/Reverse. (SYMM) "
            "symmetry of the divided-difference helpers of LambertConformalConic and AlbersEqualArea. (ECONST) derived ellipsoid "
            "constants of the seven constructors.",
-    'C10': " (RW1) In the chain of literal rewrites of DMS::Decode a pattern that contains the product character of other "
+    'C10': " (IDX1) the component index of DMS::InternalDecode stays inside ipieces[3]/fpieces[3] (see C13). (RW1) In the chain of literal rewrites of DMS::Decode a pattern that contains the product character of other "
            "rewrites (the pair '' -> \") comes after all of them, and a pattern containing another pattern comes before it.",
     'C09': " (SYMM) the 17 divided-difference helpers return, path for path, the same expression with their two points exchanged; "
            "(ALT) the tan/cot forms of DParametric are the same function. (ZQ1) found and fixed: DAuxLatitude::DParametric evaluated a 0/0 quotient after taking reciprocals of its "
